@@ -168,6 +168,7 @@ def run(ctx: F.Ctx):
     H.freeze(c12_pipeline.DAY)
     c12_pipeline._index("K1")
     c12_pipeline._index("K4")
+    c12_pipeline._index("HIST")
     try:
         rep = F.explore(ctx, cases, lambda c: _run_case(ctx, c), sample=lambda c: _sample(ctx, c),
                         day=day, twice_every=401)
@@ -183,7 +184,9 @@ def run(ctx: F.Ctx):
             "compile -> Note.to_string() -> '# rt' header + emitted items -> compile -> compare "
             "kind, ZID, body, own tags/links/properties, dates iff ZID, priority unless "
             "done/cancelled. part 2: see pipeline cases (real db create, swog.execute, "
-            "refresh_zoq_file). Every case is distinct and exercises the round trip."
+            "refresh_zoq_file), incl. an index that went through a real create / edit / next-day reindex "
+            "history, whose emitted notes must compile back to the notes in the files. Every case is "
+            "distinct and exercises the round trip."
         ),
         "bounds": {"cases": len(cases), "pipeline_cases": n_pipe, "quick_second_words": "3 of 14" if ctx.quick else "all 14"},
         "assumptions": ["first compilation is trusted only as the reference for the second (C01 judges it against the written page)"],
